@@ -119,6 +119,10 @@ func runC10(c *Check) {
 		} else {
 			c.Decide("C10-R1", "AddBatch ⟂ Put-ok<queue-write", fn, posOf(g, qStore), "the batch enters memory only after it is durable",
 				"the in-memory queue is written before / without a successful datastore Put: an accepted batch can be lost on restart", g, g.MustPrecede(nodeSet(putOK), qStore))
+			// once the batch is in the log it is accepted: no refusal after the durable write
+			c.Decide("C10-R2", "AddBatch ⟂ no-refusal-after-the-durable-write", fn, posOf(g, isPut), "after the datastore Put succeeded every return is reached through the in-memory append",
+				"AddBatch can refuse a submission (return before the in-memory append) after the batch was written to the log: the refused batch leaves a trace — after a restart it is reloaded and handed out although it was never acknowledged, and a retried submission is delivered twice",
+				g, g.MustFollow(nodeSet(putOK), qStore, g.AnyExit()))
 			// the value put is the encoding of this batch
 			for _, pn := range g.Select(isPut) {
 				v := ArgTerm(pn, 2)
@@ -816,7 +820,11 @@ func runC11(c *Check) {
 			}
 			// R2: built by append of tx from GetTxs under !has
 			apps := g.Select(func(n *Node) bool {
-				return CallName(n) == "append" && (n.Ctx.Depth == 0 || n.Ctx.Fn.Parent() == rp)
+				if CallName(n) != "append" {
+					return false
+				}
+				pk := fnPkg(n.Ctx.Fn)
+				return n.Ctx.Depth == 0 || n.Ctx.Fn.Parent() == rp || (n.Ctx.Depth == 1 && pk != nil && pk.Pkg.Path() == rootPath+"/block")
 			})
 			okBuild := false
 			for _, a := range apps {
@@ -836,7 +844,7 @@ func runC11(c *Check) {
 					okBuild = true
 				}
 			}
-			inOrder := strings.Contains(batchTxs.String(), "append(")
+			inOrder := strings.Contains(batchTxs.String(), "append(") || p.DeepContains(batchTxs, func(t *Term) bool { return t.IsCall("append") || (t.Op == "call" && t.Name == "append") }, 2)
 			if okBuild && inOrder {
 				c.OK("C11-R2", "Reaper ⟂ batch=unseen-in-mempool-order", fn, p.InstrPos(sn.In), "the batch is the mempool transactions the seen-store does not have, appended in mempool order", true)
 			} else {
